@@ -81,8 +81,8 @@ ArgsFor(op) ==
       [] op = "Remove" -> {[A0 EXCEPT !.casc = c] : c \in CasClasses}
       [] op = "Delete" -> {A0}
       [] op = "Update" ->
-           {WithBody([A0 EXCEPT !.exp = e, !.cb = cb], IF cb = "set" THEN "J2" ELSE "") :
-               e \in {"0", "E1"}, cb \in {"set", "del", "cancel", "setexp"}}
+           {WithBody([A0 EXCEPT !.exp = e, !.cb = cb], IF cb \in {"set", "retry", "err"} THEN "J2" ELSE "") :
+               e \in {"0", "E1"}, cb \in {"set", "del", "cancel", "setexp", "retry", "err"}}
       [] op = "Incr" -> {[A0 EXCEPT !.amt = m, !.def = d, !.exp = e] : m \in {0, 1, 2}, d \in {0, 3}, e \in {"0", "E1"}}
       [] op = "Touch" -> {[A0 EXCEPT !.exp = e] : e \in ExpToks}
       [] op = "GetAndTouchRaw" -> {[A0 EXCEPT !.exp = e] : e \in ExpToks}
